@@ -183,7 +183,7 @@ class InputOutputControlByIdentifier(BaseService):
                     if given_masks[mask_name] == True:
                         numeric_val |= masks_config[mask_name]
 
-                size = math.ceil(math.log(numeric_val + 1, 2) / 8.0)
+                size = (numeric_val.bit_length() + 7) // 8     # Smallest number of bytes. Integer arithmetic: math.log() is not exact for large values
                 if 'mask_size' in io_config_entry:
                     mask_size = io_config_entry['mask_size']
                     if mask_size is not None:
